@@ -67,6 +67,12 @@ FaultClasses ==
   \cup {F("bad-word", "port", "direction", "sideways"), F("bad-word", "formal", "direction", "sideways"),
         F("bad-word", "event", "direction", "sideways"), F("bad-word", "port", "injected?", "bogus")}
   \cup {F("out-event-valued", "event", "signature", a) : a \in {"bool", "id", "v", "oid", "Void", "void_", "ns.void", "void.void"}}
+  \* the same with the direction word in another letter case: refused as a bad word or by the out-event rule
+  \cup {F("out-event-valued-case", "event", "direction", a) : a \in {"Out", "OUT", "oUT"}}
+  \cup {F("out-event-out-param-case", "event", "direction", a) : a \in {"Out", "OUT"}}
+  \cup {F("bad-word", "event", "direction", a) : a \in {"Out", "In", "IN"}}
+  \cup {F("bad-word", "port", "direction", a) : a \in {"Provides", "REQUIRES"}}
+  \cup {F("bad-word", "formal", "direction", a) : a \in {"Out", "InOut", "INOUT"}}
   \cup {F("out-event-out-param", "event", "signature", ""),
         F("out-event-inout-param", "event", "signature", "")}
   \cup {F("element-non-dict", c, "elements", ty) : c \in {"root", "namespace"}, ty \in JsonTypes \ {"dict"}}
@@ -90,7 +96,7 @@ Expected(f, pos) ==
     [] f.kind = "bad-identifier" -> "reject"
     [] f.kind = "empty-ids" -> "reject"
     [] f.kind = "bad-word" -> "reject"
-    [] f.kind \in {"out-event-valued", "out-event-out-param"} -> "reject"
+    [] f.kind \in {"out-event-valued", "out-event-out-param", "out-event-valued-case", "out-event-out-param-case"} -> "reject"
     [] f.kind = "out-event-inout-param" -> "either"
     [] f.kind = "element-non-dict" -> "accept"                                 \* skipped with a warning
     [] f.kind = "item-non-dict" -> "reject"
